@@ -232,17 +232,25 @@ def finish(ctx, ob, bad, role):
 def native_filters(ctx):
     """assigner: keyspace "a" only.  Keys x* are removed, r* replaced by "R", others kept; "b" must stay untouched.
     Checked when newly created and again after reopen (factory re-installed by name)."""
+    for ksopt in ('', ' kvsep=1'):
+        r = _native_filters(ctx, ksopt)
+        if r[0]:
+            return r
+    return r
+
+
+def _native_filters(ctx, ksopt):
     def prog(first):
         L = []
         if first:
-            L += ['dir $DIR/db', 'open workers=0 filter=a', 'ks a', 'ks b']
+            L += ['dir $DIR/db', 'open workers=0 filter=a', 'ks a' + ksopt, 'ks b' + ksopt]
         for ks in ('a', 'b'):
             L += [f'insert {ks} 6b31 31', f'insert {ks} 7831 32', f'insert {ks} 7231 33', f'rotate {ks}']
         L += ['worker_drain', 'major_compact a', 'major_compact b', 'dump a', 'dump b', 'options a', 'options b']
         return L
     L = prog(True) + ['close', 'open workers=0 filter=a', 'ks a', 'ks b', 'dump a', 'dump b', 'insert a 7832 34', 'insert b 7832 34', 'rotate a', 'rotate b',
                       'worker_drain', 'major_compact a', 'major_compact b', 'dump a', 'dump b', 'options a', 'options b', 'close']
-    spath, out = ctx.run_scenario('\n'.join(L) + '\n', tag='filters')
+    spath, out = ctx.run_scenario('\n'.join(L) + '\n', tag='filters' + ksopt.strip().replace('=', ''))
     rs = [(c, r) for _i, c, r in out]
     if any(c == 'CRASH' for c, _r in rs):
         return True, spath, 'crash: ' + rs[-1][1][-200:]
@@ -252,7 +260,7 @@ def native_filters(ctx):
     want = [fa, fb, fa, fb, fa, fb2]
     if dumps != want:
         i = next(k for k in range(min(len(dumps), len(want))) if dumps[k] != want[k]) if len(dumps) == len(want) else -1
-        return True, spath, f'after major compaction with a filter assigned to "a" only: dumps {dumps}, expected {want} (first difference at #{i})'
+        return True, spath, f'after major compaction with a filter assigned to "a" only{" (key-value separated keyspaces)" if ksopt else ""}: dumps {dumps}, expected {want} (first difference at #{i})'
     flags = ['has_compaction_filter=true' in o for o in opts]
     if flags != [True, False, True, False]:
         return True, spath, f'compaction filter presence for (a, b) before/after reopen = {flags}, expected [True, False, True, False]'
